@@ -4,7 +4,7 @@ claim('C04', 'proof',
       'statement\'s acceptance predicate is false; `is_compatible` True implies acceptance-set inclusion; `_extend` narrows and '
       'leaves the base compatible (Number, `ListKey.extend`, `List._extend` through the real `Field.extend`, `Tuple._extend` in all four fixed/variable '
       'combinations incl. the one-field-per-position shape invariant); `apply` result accepted, idempotent, spec unchanged, also with the modifiers '
-      'frozen / noneable / default / allow_partial symbolic. Obligations are discharged by z3 for all '
+      'frozen / noneable / default / allow_partial symbolic; `set_default` stores only a default the spec accepts and leaves the old one when it refuses. Obligations are discharged by z3 for all '
       'bounds/sizes/values; nested element specs enter through an induction hypothesis (uninterpreted acceptance set + law).',
       'Trusted: pyvc engine (cross-checked per path against CPython), builtin axioms, A-INDUCTION for nesting, floats as reals. '
       'Dict/Object/Union/Callable/Type/Any specs and Schema-level extend/compat are not under contract: the bounded driver (bounded/c04_value_specs.py: '
@@ -31,13 +31,14 @@ claim('C08', 'proof',
       'contract-based deductive verification (pyvc dominance/trace obligations)', 'DESIGN.md 5/C08')
 claim('C10', 'proof',
       'KeyPath arithmetic against key sequences for paths of any depth: `__init__`, `__add__`, `__sub__` (defined iff prefix; result is the suffix), '
-      '`parent`, `key`, `is_relative_to`, `__eq__`, and the lemmas (p+q)-p == q and q+(p-q) == p, all by symbolic execution of the real bodies with '
+      '`parent`, `key`, `is_relative_to`, `__eq__`, the lemmas (p+q)-p == q and q+(p-q) == p, and `exists`/`get` consistent with `query` (a path exists exactly '
+      'when query returns, whatever the node holds), all by symbolic execution of the real bodies with '
       'quantified sequence reasoning. parse/format, query/traverse, flatten/canonicalize and KeyPathSet are covered by the bounded tier only.',
       'Trusted: engine, list axioms; keys are modelled as integers with decidable equality (the code only compares them). String parsing is not proved.',
       'contract-based deductive verification (pyvc) + bounded stand-in for parse/format, traversal, KeyPathSet', 'DESIGN.md 5/C10')
 claim('C15', 'proof',
       '`DNAGenerator.recover` carries the loop invariant "after i records the counters equal those of the live run after the same i events" '
-      '(INV-init / INV-step discharged for histories of any length, hence every crash point); `propose`/`feedback` count exactly once; '
+      '(INV-init / INV-step discharged for histories of any length, hence every crash point); `propose`/`feedback` count exactly once, and a feedback that is refused or whose algorithm-specific part raises is not counted; '
       'Sweeping `_propose`/`_replay` and seeded Random `_propose`/`_replay` are step-equivalent (same successor call, exactly one rng draw).',
       'Trusted: engine; subclasses\' `_replay`/`_feedback` do not touch the base counters (A-SUBTYPE). Deduping and the Evolution family are covered by '
       'the bounded tier only (all crash points of short runs).',
@@ -62,7 +63,10 @@ claim('C19', 'proof',
 claim('C11', 'proof',
       'Validators accept exactly the valid set, one level with children by induction hypothesis: `Choices.validate` (single choice; and multi choice with a '
       'symbolic number of choices and candidates, every distinct/sorted combination), `Space.validate` (any number of elements) and `Float.validate` raise '
-      'ValueError iff the statement\'s constraints (arity, 0 <= index < n, distinctness, sortedness, conditional sub-space validity, float range) fail. '
+      'ValueError iff the statement\'s constraints (arity, 0 <= index < n, distinctness, sortedness, conditional sub-space validity, float range) fail; '
+      '`DNA.use_spec` (binding) for float, multi-element space, multi-choice and single-choice specs accepts exactly the members in the same sense (children\'s binding as '
+      'induction hypothesis), binds the node to exactly that spec on success and leaves its spec untouched when it refuses; `Space.is_constant` is true exactly for a space '
+      'without decision points. '
       'The enumeration itself (next_dna odometers, space_size, random_dna, Sweeping) is checked by the bounded tier against brute-force enumeration.',
       'Trusted: engine; axioms for set()/sorted() on integer sequences; A-INDUCTION for sub-spaces. next_dna / space_size are not under contract '
       '(nested closures with mutable sets): bounded only.',
@@ -71,7 +75,7 @@ claim('C06', 'proof',
       'One-level induction steps of the laws on the real `eq`/`ne`/`lt`/`gt` bodies for sequences of any length: eq on lists/tuples means same length and '
       'pairwise-equal children; symmetric, transitive; ne is its negation; lt on lists satisfies trichotomy (exactly one of lt/eq/gt), gt is lt swapped, '
       'transitivity and congruence with eq -- each discharged by running the real bodies two or three times on symbolic sequences whose children obey '
-      'the laws (induction hypothesis). `_type_order` ranks the type classes as documented and `lt` across classes follows it.',
+      'the laws (induction hypothesis). `_type_order` ranks the type classes as documented and `lt` across classes follows it; `Ref.sym_eq` holds exactly between references to the very same object.',
       'Trusted: engine; A-INDUCTION (children relations are uninterpreted and assumed lawful one level down). Dict branches, hashing, user sym_eq/sym_lt '
       'overrides and sorting are covered by the bounded tier (all pairs/triples of a value pool).',
       'contract-based deductive verification (pyvc relational obligations) + bounded stand-in', 'DESIGN.md 5/C06')
@@ -79,7 +83,8 @@ claim('C16', 'proof',
       'Monitor reasoning on the in-memory study: `create_trial`, `get_or_create_trial`, `_complete_trial` and `_mark_completed` access the bookkeeping '
       'fields (and the trial status) only with the study lock held and inside ONE critical section; id allocation, the single proposal call and the append are '
       'atomic; the pending trial of a group is handed out again or exactly one new trial is created in the same section; the PENDING -> COMPLETED transition is a '
-      'test-and-set (exactly one of two racing finishers reports a trial); each section preserves the study invariant (ids 1..len(trials), PENDING+COMPLETED '
+      'test-and-set (exactly one of two racing finishers reports a trial); `Feedback.done`/`skip`: only the worker that wins the transition reports the trial to the algorithm (done: exactly once, before booking it; skip: not at all), and a '
+      'refused `done()` has not touched the trial; each section preserves the study invariant (ids 1..len(trials), PENDING+COMPLETED '
       '== len(trials), len <= max_num_trials, best trial feasible and of maximal reward) from any state satisfying it; no other method writes the guarded '
       'fields. Proved sequentially per critical section, hence valid under every schedule (lock = mutual exclusion).',
       'Trusted: engine, threading.Lock mutual exclusion. What happens BETWEEN critical sections (delivery of the returned trial to the worker, the algorithm\'s own '
@@ -106,7 +111,8 @@ claim('C01', 'proof',
       'returns a symbolic node with parent = the container\'s parent-for-children and path = container path + key, adopts the node object itself only if it was '
       'free or already in that slot and otherwise adopts a copy while the original keeps parent and path (one object never in two places); the list write '
       'primitive, `__setitem__`, `__delitem__` and `pop` detach (sym_setparent(None)) the very child they remove or replace, for lists of any length; the dict write '
-      'primitive detaches (parent and path reset) the node stored under a key that is replaced or deleted. '
+      'primitive detaches (parent and path reset) the node stored under a key that is replaced or deleted; `List.sort`/`reverse` are followed by the re-addressing pass on '
+      'every returning path, and that pass (`_sync_children`, lists of any length) gives every symbolic element whose key differs from its index the path list-path + index. '
       'The whole-tree invariant over histories is checked by the bounded tier (well-formedness walk after every step of all short histories).',
       'Trusted: engine; assumed contract of `Symbolic.clone` (fresh parentless copy, see C07) and of `_update_children_paths` (recursive re-addressing); '
       'acyclicity (inserting a node below itself) is not proved and is a bounded-tier case; Dict/Object mutators are bounded-tier only.',
@@ -121,7 +127,8 @@ claim('C05', 'proof',
 claim('C07', 'proof',
       '`Dict._sym_clone` and `List._sym_clone` for containers with any number of children: the copy is constructed with value_spec, allow_partial, '
       'accessor_writable and sealed of the original; in every iteration a symbolic child (and every child when deep) is replaced by `base.clone(child, deep, memo)` '
-      'and a leaf of a shallow clone is shared as is (LOOP-BODY obligation); the original is not written. Equality, independence under later mutation, '
+      'and a leaf of a shallow clone is shared as is (LOOP-BODY obligation); the original is not written; `Ref._sym_clone` returns a NEW Ref node that '
+      'holds the very same referenced object, whatever `deep`/`memo`. Equality, independence under later mutation, '
       'Object/Ref/DNA/hyper clones and copy.copy/deepcopy are covered by the bounded tier.',
       'Trusted: engine; `base.clone` on children is the induction hypothesis; constructors establish a well-formed tree (C01).',
       'contract-based deductive verification (pyvc loop contracts) + bounded stand-in', 'DESIGN.md 5/C07')
@@ -158,7 +165,8 @@ claim('C12', 'proof',
 claim('C13', 'proof',
       'Frame kernel of `ObjectTemplate._decode` for templates with any number of hyper primitives: every rebind that materialises decoded values is applied to '
       '`symbolic.clone(template_value, deep=True)`, never to the template value; primitive i decodes exactly child DNA i (LOOP-BODY obligation); an arity '
-      'mismatch is refused before anything is decoded; the template\'s own fields are not written. Decode/encode inversion, shapes, value-spec acceptance, '
+      'mismatch is refused before anything is decoded; the template\'s own fields are not written; `OneOf.custom_apply` records the bound value spec only after every '
+      'candidate was applied to it, and a refused binding leaves the placeholder unbound. Decode/encode inversion, shapes, value-spec acceptance, '
       'iteration counts and `where` filters are covered by the bounded tier against an independent reference model.',
       'Trusted: engine; the deep clone is a fresh disjoint tree (C07/C01); primitives\' own decode is the induction hypothesis. Derived-value computation '
       '(`_compute_derived`) is not under contract.',
